@@ -4,6 +4,7 @@ import ast
 import glob
 import json
 import os
+import random
 
 import tlaparse
 import vlib
@@ -26,9 +27,42 @@ def tla_value(v):
     raise ValueError(v)
 
 
-def gen_module(ctx):
+def random_configs(ctx, n):
+    """Hook configurations drawn from the documented grammar (seeded): 1-3 hooks, 0-3 kubernetes and 0-2 schedule bindings each,
+    queues {main, q1, q2}, groups {none, g1, g2}, executeHookOnSynchronization, allowFailure, onStartup order, an occasional v0 hook.
+    They complement the hand-written configurations A.. of configs.json ("all sets of hooks, any mix of binding kinds, groups,
+    queues and synchronization flags")."""
+    rnd = random.Random(ctx.seed * 7919 + 13)
+    cfgs = {}
+    for k in range(n):
+        hooks = []
+        for name in sorted(rnd.sample(["ha", "hb", "hc", "hd"], rnd.choice([1, 1, 2, 2, 3]))):
+            v0 = rnd.random() < 0.1
+            kube, sched = [], []
+            for j in range(rnd.choice([0, 1, 2, 2, 3])):
+                kube.append({"name": "k%d" % (j + 1), "queue": "main" if v0 else rnd.choice(["main", "main", "q1", "q2"]),
+                             "group": "" if v0 else rnd.choice(["", "", "g1", "g2"]), "sync": rnd.random() < 0.8, "af": rnd.random() < 0.3})
+            for j in range(rnd.choice([0, 0, 1, 2])):
+                sb = {"name": "s%d" % (j + 1), "crontab": rnd.choice(["c1", "c2"]), "queue": "main" if v0 else rnd.choice(["main", "q1", "q2"]),
+                      "group": "" if v0 else rnd.choice(["", "", "g1", "g2"]), "af": rnd.random() < 0.3}
+                # the order of the tasks ONE tick produces for several bindings of ONE hook is not specified (the controller
+                # ranges over a map): configurations in which it would be observable (same crontab, same queue) are not generated
+                for o in sched:
+                    if o["crontab"] == sb["crontab"] and o["queue"] == sb["queue"]:
+                        sb["crontab"] = "c2" if o["crontab"] == "c1" else "c1"
+                sched.append(sb)
+            order = rnd.choice([0, 0, 1, 2])
+            if not kube and not sched and order == 0:
+                order = 1  # a hook must declare something
+            hooks.append({"name": name, "order": order, "v0": v0, "kube": kube, "sched": sched})
+        cfgs["R%d" % k] = hooks
+    return cfgs
+
+
+def gen_module(ctx, extra=None):
     """configs.json is the single source of the hook configurations: the TLA+ module is generated from it."""
     cfgs = json.load(open(os.path.join(vlib.SPEC, SPEC, "configs.json")))
+    cfgs.update(extra or {})
     lines = ["----------------------------- MODULE OpConfigs -----------------------------", "EXTENDS Operator"]
     for name, hooks in sorted(cfgs.items()):
         # the specification takes Hooks in the order of their paths (plain string order, as sort.Strings gives it)
@@ -127,15 +161,21 @@ def replay(ctx, cases, prefixes):
 
 
 def run(ctx, prefixes, what, configs=None):
-    mod, cfgs = gen_module(ctx)
+    rcfgs = random_configs(ctx, ctx.pick(8, 60))
+    mod, cfgs = gen_module(ctx, rcfgs)
     asis_env = bool(os.environ.get("VERIF_OP_ASIS"))
     quick = [("A", 2, 1, 1), ("B", 2, 0, 2)] if ctx.quick() else [("A", 2, 1, 2), ("B", 3, 0, 2), ("D", 2, 1, 1)]
     model_checks(ctx, mod, quick, [("A", "NoSyncForDisabled", "TRUE", "FALSE"), ("B", "NeverDiscardStrict", "FALSE", "TRUE")])
     cases = []
     per = ctx.pick(40, 400)
-    for cfg in sorted(configs or cfgs):
+    for cfg in sorted(configs or [c for c in cfgs if c not in rcfgs]):
         for b in gen(ctx, mod, cfg, per, ctx.pick(45, 70), asis=asis_env):
             cases.append({"config": cfg, "hooks": cfgs[cfg], "steps": b})
+    # configurations drawn from the grammar: fewer behaviours each, other ones for every seed
+    for cfg in sorted(rcfgs):
+        for b in gen(ctx, mod, cfg, ctx.pick(8, 25), ctx.pick(45, 70), asis=asis_env):
+            cases.append({"config": cfg, "hooks": cfgs[cfg], "steps": b})
+    ctx.cov["random_configurations"] = len(rcfgs)
     stats = replay(ctx, cases, prefixes)
     ctx.log("replayed %d behaviours on the real operator (%s): %s" % (len(cases), what, stats))
     nlog = oplog(ctx, ctx.pid) if ctx.pid in ("C03", "C04") else 0
@@ -151,12 +191,13 @@ def run(ctx, prefixes, what, configs=None):
                           "the contexts received by the hook process and the task status; distinct = distinct (configuration, action sequence)")
 
 
-def e2e(ctx, prefixes, configs, per, depth=50, sdafter=9999):
+def e2e(ctx, prefixes, configs, per, depth=50, sdafter=9999, nrandom=0):
     """operator-level behaviours for the checks of other machines (C01, C02, C17): returns (number of cases, stats)."""
-    mod, cfgs = gen_module(ctx)
+    rcfgs = random_configs(ctx, nrandom) if nrandom else {}
+    mod, cfgs = gen_module(ctx, rcfgs)
     cases = []
-    for cfg in configs:
-        for b in gen(ctx, mod, cfg, per, depth, sdafter=sdafter):
+    for cfg in list(configs) + sorted(rcfgs):
+        for b in gen(ctx, mod, cfg, per if cfg not in rcfgs else max(6, per // 3), depth, sdafter=sdafter):
             if sdafter < 9999 and not any(s["act"][0] == "Shutdown" for s in b):
                 continue
             cases.append({"config": cfg, "hooks": cfgs[cfg], "steps": b})
@@ -283,10 +324,14 @@ def check_c07(ctx):
     ctx.cov["layouts"] = total
     ctx.cov["exhaustive"] = True
     # end to end
-    mod, cfgs = gen_module(ctx)
+    rcfgs = random_configs(ctx, ctx.pick(6, 40))
+    mod, cfgs = gen_module(ctx, rcfgs)
     cases = []
     for cfg in ("A", "C", "G", "K", "M"):
         for b in gen(ctx, mod, cfg, ctx.pick(25, 300), ctx.pick(45, 70)):
+            cases.append({"config": cfg, "hooks": cfgs[cfg], "steps": b})
+    for cfg in sorted(rcfgs):
+        for b in gen(ctx, mod, cfg, ctx.pick(8, 25), ctx.pick(45, 70)):
             cases.append({"config": cfg, "hooks": cfgs[cfg], "steps": b})
     stats = replay(ctx, cases, ("C07/",))
     ctx.log("end to end: %d operator behaviours replayed: %s" % (len(cases), stats))
